@@ -1,8 +1,11 @@
 use crate::Ctx;
 pub mod c01;
 pub mod c01_sr;
+pub mod c02;
+pub mod rt;
 pub mod c03;
 pub mod c06;
+pub mod c08;
 pub mod c09;
 pub mod c11;
 pub mod c12;
@@ -14,8 +17,10 @@ pub fn run(id: &str, ctx: &Ctx) -> i32 {
     match crate::spec::m2::self_check() { Ok(_) => {}, Err(e) => { eprintln!("MACHINERY: {e}"); return 2; } }
     match id {
         "C01" => c01::run(ctx),
+        "C02" => c02::run(ctx),
         "C03" => c03::run(ctx),
         "C06" => c06::run(ctx),
+        "C08" => c08::run(ctx),
         "C09" => c09::run(ctx),
         "C11" => c11::run(ctx),
         "C12" => c12::run(ctx),
@@ -29,8 +34,10 @@ pub fn replay(id: &str, path: &str) -> i32 {
     let Ok(v) = serde_json::from_str::<serde_json::Value>(&s) else { eprintln!("bad replay json"); return 2; };
     match id {
         "C01" => c01::replay(&v),
+        "C02" => c02::replay(&v),
         "C03" => c03::replay(&v),
         "C06" => c06::replay(&v),
+        "C08" => c08::replay(&v),
         "C09" => c09::replay(&v),
         "C11" => c11::replay(&v),
         "C12" => c12::replay(&v),
